@@ -201,13 +201,16 @@ Proof. intros H. unfold originals, kill. cbn. now apply filter_upd_dead. Qed.
 
 (* no event creates an original; every event that runs the original's teardown
    (drop, verify, report, leaving its scope) also consumes it *)
-Theorem originals_never_increase w e : (originals (fst (step w e)) <= originals w)%nat.
+Lemma originals_core w e : (originals (fst (step_core w e)) <= originals w)%nat.
 Proof.
-  unfold step. destruct e as [x b]. cbn [ev_base ev_ctx].
+  unfold step_core. destruct e as [x b]. cbn [ev_base ev_ctx].
   assert (Hupd : forall insts i it it', nth_opt insts i = Some it -> is_live_original it' = is_live_original it ->
             length (filter is_live_original (upd insts i it')) = length (filter is_live_original insts)).
   { intros. now apply (filter_upd_same_flags insts i it it'). }
-  destruct b as [i m a|i|i|i|i|i|i|i|i m a|n| |i m a|i j].
+  destruct b as [i m a|i|i|i|i|i|i|i|i m a|n| |i m a|i j|i m a].
+  14: { (* a value that calls the mock from its Drop is lent *)
+    destruct (live_inst w i) as [it|] eqn:Hl; [|cbn; lia]. apply live_inst_nth in Hl as [Hn _].
+    cbn. unfold originals. cbn. rewrite (Hupd _ i it); [lia|assumption|reflexivity]. }
   13: { (* clone_from: a clone is appended, the old value is killed, two slots are overwritten with non-originals *)
     destruct (Nat.eqb i j); [cbn; lia|].
     destruct (live_inst w i) as [it|]; [|cbn; lia]. destruct (live_inst w j) as [src|]; [|cbn; lia].
@@ -277,6 +280,67 @@ Proof.
     + cbn [fst]. apply Hh. reflexivity.
 Qed.
 
+Lemma releasing_live w b i it early : releasing w b = Some (i, it, early) -> live_inst w i = Some it.
+Proof.
+  assert (P : forall j e, match live_inst w j with
+                          | Some it0 => match i_calls it0 with [] => None | _ :: _ => Some (j, it0, e) end
+                          | None => None end = Some (i, it, early) -> live_inst w i = Some it).
+  { intros j e. destruct (live_inst w j) as [it0|] eqn:Hl; [|discriminate]. destruct (i_calls it0); [discriminate|].
+    intros [= <- <- _]. exact Hl. }
+  unfold releasing. destruct b; try discriminate; try apply P.
+  destruct (live_inst w i0) as [it0|] eqn:Hl; [|discriminate]. destruct (i_calls it0); [discriminate|].
+  destruct (i_original it0); [discriminate|]. intros [= <- <- _]. exact Hl.
+Qed.
+
+Lemma nth_opt_upd_same {X} (l : list X) : forall k (y z : X), nth_opt l k = Some y -> nth_opt (upd l k z) k = Some z.
+Proof. induction l as [|q l IH]; intros [|k] y z Hy; cbn in *; try discriminate; [reflexivity|now apply (IH k y)]. Qed.
+
+(* releasing the value chain changes the shared state (the swallowed calls) and nothing else about the instance *)
+Lemma live_inst_release w i it : live_inst w i = Some it -> live_inst (release w i it) i = Some (clear_calls it).
+Proof.
+  intros Hl. apply live_inst_nth in Hl as [Hn Ha]. unfold release. destruct (fold_left _ _ _) as [s ar].
+  unfold live_inst, set_insts. cbn [w_insts]. rewrite (nth_opt_upd_same _ i it _ Hn). cbn [clear_calls i_alive]. now rewrite Ha.
+Qed.
+
+Lemma originals_release w i it : live_inst w i = Some it -> originals (release w i it) = originals w.
+Proof.
+  intros Hl. apply live_inst_nth in Hl as [Hn _]. unfold release.
+  destruct (fold_left _ _ _) as [s ar]. unfold originals, set_insts. cbn [w_insts].
+  now apply (filter_upd_same_flags (w_insts w) i it (clear_calls it)).
+Qed.
+
+(* no event creates an original; every event that runs the original's teardown
+   (drop, verify, report, leaving its scope) also consumes it *)
+Theorem originals_never_increase w e : (originals (fst (step w e)) <= originals w)%nat.
+Proof.
+  unfold step. destruct (releasing w (ev_base e)) as [[[i it] [|]]|] eqn:R; [| cbn; lia | apply originals_core].
+  pose proof (originals_core (release w i it) e) as H. rewrite (originals_release w i it (releasing_live _ _ _ _ _ R)) in H. exact H.
+Qed.
+
+(* teardown order: what the Drop of a lent value records while the original's value chain is released is part of the verdict *)
+Theorem release_errors_reported w i it e es :
+  live_inst w i = Some it -> i_calls it <> [] -> i_original it = true -> i_panicked it = false ->
+  i_torn it = false -> i_vid it = true -> count_after_release (w_insts w) it = 1 ->
+  errs (w_state (release w i it)) = e :: es ->
+  snd (step w {| ev_ctx := here; ev_base := BDrop i |}) = ("P:" ++ verdict_text hinfo (e :: es))%string /\
+  snd (step w {| ev_ctx := here; ev_base := BVerify i |}) = ("P:" ++ verdict_text hinfo (e :: es))%string.
+Proof.
+  intros Hl Hc Ho Hp Ht Hv Hcnt He.
+  assert (Hcount : count_after_release (w_insts (release w i it)) (clear_calls it) = 1).
+  { pose proof Hl as Hl'. apply live_inst_nth in Hl' as [Hn _]. unfold release. destruct (fold_left _ _ _) as [s ar].
+    unfold set_insts. cbn [w_insts]. unfold count_after_release in *.
+    pose proof (strong_count_upd (w_insts w) i it (clear_calls it) Hn) as Hs.
+    assert (handles (clear_calls it) = handles it) as Hh by reflexivity. rewrite Hh in *. lia. }
+  assert (Hbc : w_bc (release w i it) = w_bc w /\ w_cfg (release w i it) = w_cfg w).
+  { unfold release. destruct (fold_left _ _ _) as [s ar]. split; reflexivity. }
+  destruct Hbc as [Hbc Hcfg].
+  pose proof (recorded_errors_fail hinfo (w_bc w) (w_cfg w) (w_state (release w i it)) (clear_calls it) e es He Ho Hp) as [_ Htd].
+  unfold step, releasing. cbn [ev_base ev_ctx]. rewrite Hl. destruct (i_calls it) as [|c cs]; [contradiction|].
+  unfold step_core. cbn [ev_base ev_ctx]. rewrite (live_inst_release w i it Hl). cbn [x_unwinding here].
+  unfold drop_panic. cbn [clear_calls i_torn i_vid i_original]. rewrite Ht, Hv, Ho. cbn [negb].
+  fold (clear_calls it). rewrite Hcount, Hbc, Hcfg, Htd, He. split; reflexivity.
+Qed.
+
 Theorem originals_run es : forall w, (originals (fold_left (fun w e => fst (step w e)) es w) <= originals w)%nat.
 Proof.
   induction es as [|e es IH]; intros w; cbn; [lia|].
@@ -293,11 +357,12 @@ Proof. intros H1 Hn Ho. rewrite (originals_kill w i it Hn), Ho, H1. reflexivity.
 Theorem dead_instance_inert w x b :
   (forall i, match b with
              | BCall j _ _ | BCallOwn j _ _ | BCallD j _ _ => j = i | BClone j | BDrop j | BVerify j | BNvid j | BReport j
-             | BLend j | BCount j => j = i | BCloneFrom j _ => j = i | BArm _ | BLive => False end -> live_inst w i = None) ->
+             | BLend j | BCount j => j = i | BCloneFrom j _ => j = i | BLendCall j _ _ => j = i | BArm _ | BLive => False end ->
+             live_inst w i = None) ->
   (match b with BArm _ | BLive => False | _ => True end) ->
   step w {| ev_ctx := x; ev_base := b |} = (w, "invalid"%string).
 Proof.
-  intros H Hb. unfold step. cbn [ev_base ev_ctx].
-  destruct b as [i m a|i|i|i|i|i|i|i|i m a|n| |i m a|i j]; try contradiction; try now rewrite (H i eq_refl).
-  destruct (Nat.eqb i j); [reflexivity|]. now rewrite (H i eq_refl).
+  intros H Hb. unfold step, step_core, releasing. cbn [ev_base ev_ctx].
+  destruct b as [i m a|i|i|i|i|i|i|i|i m a|n| |i m a|i j|i m a]; try contradiction; try now rewrite (H i eq_refl).
+  rewrite (H i eq_refl). destruct (Nat.eqb i j); reflexivity.
 Qed.
